@@ -887,4 +887,402 @@ theorem tcheck_ok {tc : TCfg} (R : Repaired tc.base) {top : Top} (T : TopInv top
 theorem TopInv.pre_fields {a b : Top} (T : TopInv a) (Rs : Rest a b) (hst : b.st = a.st) (htb : b.tbinds = a.tbinds) : TopPre b :=
   T.pre_of_rest Rs (T.f.of_fields hst htb)
 
+/-! ### bindings, the clock, a new terminal -/
+
+theorem foldl_max_ge : ∀ (l : List TBind) (m0 : Int), m0 ≤ l.foldl (fun m b => if b.id > m then b.id else m) m0 ∧
+    ∀ b ∈ l, b.id ≤ l.foldl (fun m b => if b.id > m then b.id else m) m0
+  | [], m0 => ⟨Int.le_refl _, by intro b hb; cases hb⟩
+  | a :: r, m0 => by
+    simp only [List.foldl_cons]
+    obtain ⟨h1, h2⟩ := foldl_max_ge r (if a.id > m0 then a.id else m0)
+    have h0 : m0 ≤ (if a.id > m0 then a.id else m0) ∧ a.id ≤ (if a.id > m0 then a.id else m0) := by split <;> omega
+    generalize (if a.id > m0 then a.id else m0) = x at h0 h1 h2 ⊢
+    refine ⟨by omega, ?_⟩
+    intro b hb
+    simp only [List.mem_cons] at hb
+    rcases hb with rfl | hb
+    · omega
+    · exact h2 b hb
+
+theorem tbind_ok {tc : TCfg} {top : Top} (T : TopInv top) (ev : Ev) (ret : Bool) (acts : List TAct) :
+    ∃ top1 r, xstepCore tc top (.tbind ev ret acts) = .ok (top1, r) ∧ TopPre top1 := by
+  have e : xstepCore tc top (.tbind ev ret acts) =
+      (if !heldT top.st then pure (top, "skip")
+       else
+        let id := top.tbinds.foldl (fun m b => if b.id > m then b.id else m) (0 : Int) + 1
+        pure ({ top with tbinds := top.tbinds ++ [⟨id, .app top.nTB, some ev, ret, acts⟩], nTB := top.nTB + 1 }, s!"id={id}")) := rfl
+  rw [e]
+  by_cases hh : heldT top.st = true
+  · rw [if_neg (by rw [hh]; simp)]
+    refine ⟨_, _, rfl, ⟨⟨T.f.inv, T.f.keep, ?_, ?_⟩, T.sw.pre.of_same ⟨rfl, rfl, rfl, rfl, rfl⟩, ⟨T.inst.live, T.inst.dead⟩, T.dangling⟩⟩
+    · show ((top.tbinds ++ [_]).map (fun (b : TBind) => b.id)).Nodup
+      rw [List.map_append, List.nodup_append]
+      refine ⟨T.f.ids, by simp, ?_⟩
+      intro a ha b hb
+      simp only [List.map_cons, List.map_nil, List.mem_singleton] at hb
+      simp only [List.mem_map] at ha
+      obtain ⟨c, hc, rfl⟩ := ha
+      have := (foldl_max_ge top.tbinds 0).2 c hc
+      subst hb
+      show c.id ≠ _
+      omega
+    · intro b hb hna
+      show rootAlive top.st = true
+      simp only [List.mem_append, List.mem_singleton] at hb
+      rcases hb with hb | hb
+      · exact T.f.root b hb hna
+      · subst hb; cases hna
+  · rw [if_pos (not_true_of hh)]
+    exact ⟨top, "skip", rfl, T.pre⟩
+
+theorem tunbind_ok {tc : TCfg} {top : Top} (T : TopInv top) (id : Int) :
+    ∃ top1 r, xstepCore tc top (.tunbind id) = .ok (top1, r) ∧ TopPre top1 := by
+  have e : xstepCore tc top (.tunbind id) =
+      (if !heldT top.st || !(top.tbinds.any (fun b => b.id = id && b.isApp)) then pure (top, "skip")
+       else pure ({ top with tbinds := top.tbinds.filter (fun b => b.id ≠ id) }, "ok")) := rfl
+  rw [e]
+  split
+  · exact ⟨top, "skip", rfl, T.pre⟩
+  · refine ⟨_, _, rfl, T.pre_of_rest ⟨InstRel.refl _, rfl, rfl, rfl, rfl, rfl, rfl, rfl, rfl, rfl, rfl, rfl, fun c hc => (List.mem_filter.1 hc).1⟩
+      ⟨T.f.inv, T.f.keep, nodup_map_filter (fun (b : TBind) => b.id) _ T.f.ids, fun b hb hna => T.f.root b (List.mem_filter.1 hb).1 hna⟩⟩
+
+theorem tick_ok {tc : TCfg} {top : Top} (T : TopInv top) (ms : Int) :
+    ∃ top1 r, xstepCore tc top (.tick ms) = .ok (top1, r) ∧ TopPre top1 :=
+  ⟨{ top with now := top.now + ms }, "ok", rfl,
+    ⟨T.f.of_fields rfl rfl, T.sw.pre.of_same ⟨rfl, rfl, rfl, rfl, rfl⟩, ⟨T.inst.live, T.inst.dead⟩, T.dangling⟩⟩
+
+theorem mprint_ok {tc : TCfg} {top : Top} (T : TopInv top) (line col : Int) (bytes : List UInt8) :
+    ∃ top1 r, xstepCore tc top (.mprint line col bytes) = .ok (top1, r) ∧ TopPre top1 := by
+  have e : xstepCore tc top (.mprint line col bytes) =
+      (if !top.mock || !heldT top.st then pure (top, "skip")
+       else match top.screen with
+        | none => pure (top, "unsupported-screen")
+        | some scr =>
+          let scr' := ((scr.goto line col).print bytes).compact
+          if scr'.hung then pure (top, "skip")
+          else pure ({ top with screen := some scr', printed := true }, "ok")) := rfl
+  rw [e]
+  split
+  · exact ⟨top, _, rfl, T.pre⟩
+  · split
+    · exact ⟨top, _, rfl, T.pre⟩
+    · dsimp only
+      split
+      · exact ⟨top, _, rfl, T.pre⟩
+      · exact ⟨_, _, rfl, T.pre_fields (by rest_rfl) rfl rfl⟩
+
+theorem tsetin_ok {tc : TCfg} (hs : tc.setInputFdClearsTermkey = true) {top : Top} (T : TopInv top) :
+    ∃ top1 r, xstepCore tc top .tsetin = .ok (top1, r) ∧ TopPre top1 := by
+  have e : xstepCore tc top .tsetin =
+      (if !heldT top.st || !top.hasFd then pure (top, "skip")
+       else if !tc.setInputFdClearsTermkey then
+        .ub .mem "tickit_term_set_input_fd: get_termkey() uses the TermKey that has just been destroyed"
+       else pure ({ top with pendingEsc := false, inputDead := false }, "ok fd=1")) := rfl
+  rw [e]
+  split
+  · exact ⟨top, _, rfl, T.pre⟩
+  · rw [if_neg (by rw [hs]; simp)]
+    exact ⟨_, _, rfl, ⟨T.f.of_fields rfl rfl, T.sw.pre.of_same ⟨rfl, rfl, rfl, rfl, rfl⟩, ⟨T.inst.live, T.inst.dead⟩, T.dangling⟩⟩
+
+theorem keepingHandlers_init' (lines cols : Int) : KeepingHandlers
+    ({ tree := { wins := #[({ rect := ⟨0, 0, lines, cols⟩, isRoot := true } : WinTree.Win)], root := {} }, wx := #[{}], term := { refcount := 2 } } : St) := by
+  intro i b hb
+  unfold getX at hb
+  by_cases hi : i = 0
+  · subst hi; simp at hb
+  · have : (#[({} : WinX)])[i]? = none := by apply Array.getElem?_eq_none; simp; omega
+    simp only [this, Option.getD_none] at hb
+    simp at hb
+
+/-- A state with nobody observing SIGWINCH and no further terminal. -/
+theorem swOk_fresh (top : Top) (h1 : top.sw = #[{}]) (h2 : top.swFirst = none) (h3 : top.swHandler = false) (h4 : top.xterms = #[])
+    (h5 : top.fail = none) : SwOk top := by
+  refine ⟨h5, [], ⟨by rw [h2]; trivial, List.nodup_nil, by simp, ?_, by simp, by rw [h1, h4]; rfl, by rw [h2, h3]; rfl⟩, by simp⟩
+  intro c _
+  unfold swNext swObs swNode
+  rw [h1]
+  by_cases hc : c = 0
+  · subst hc; exact ⟨rfl, rfl⟩
+  · have : (#[({} : SwNode)])[c]? = none := by apply Array.getElem?_eq_none; simp; omega
+    rw [this]; exact ⟨rfl, rfl⟩
+
+/-- The state `newTop` makes. -/
+def freshTop (lines cols : Int) (mock hasFd : Bool) : Top :=
+  { st := { tree := { wins := #[({ rect := ⟨0, 0, lines, cols⟩, isRoot := true } : WinTree.Win)], root := {} }, wx := #[{}], term := { refcount := 2 } },
+    mock := mock, hasFd := hasFd, size := (lines, cols), screen := if mock then some (RBFlush.MockTerm.new lines cols) else none,
+    tbinds := [⟨1, .rootResize, none, false, []⟩, ⟨2, .rootKey, some .key, false, []⟩, ⟨3, .rootMouse, some .mouse, false, []⟩] }
+
+theorem newTop_eq (cfg : Cfg) (lines cols : Int) (mock hasFd : Bool) :
+    newTop cfg lines cols mock hasFd = .ok (freshTop lines cols mock hasFd, "ok") := rfl
+
+theorem freshTop_inv (lines cols : Int) (mock hasFd : Bool) : TopInv (freshTop lines cols mock hasFd) := by
+  refine ⟨⟨SInv.init lines cols rfl, keepingHandlers_init' lines cols, by show ([1, 2, 3] : List Int).Nodup; decide, fun _ _ _ => rfl⟩,
+    swOk_fresh _ rfl rfl rfl rfl rfl, ⟨fun i hi => (by cases hi), fun i hi => (by cases hi)⟩, rfl⟩
+
+theorem newTerm_ok {tc : TCfg} (top : Top) (lines cols : Int) (mock : Bool) :
+    ∃ top1 r, xstepCore tc top (.base (.newTerm lines cols mock)) = .ok (top1, r) ∧ TopPre top1 :=
+  ⟨_, _, newTop_eq tc.base lines cols mock false, (freshTop_inv lines cols mock false).pre⟩
+
+theorem newin_ok {tc : TCfg} (top : Top) (lines cols : Int) :
+    ∃ top1 r, xstepCore tc top (.newin lines cols) = .ok (top1, r) ∧ TopPre top1 :=
+  ⟨_, _, newTop_eq tc.base lines cols false true, (freshTop_inv lines cols false true).pre⟩
+
+/-! ### the toplevel instance -/
+
+/-- The instance's reference to the root window, without the one to the terminal. -/
+def rootGhost : Ghost := { term := 0, win := fun j => if j = 0 then 1 else 0 }
+
+theorem rootGhost_addTerm : rootGhost.addTerm = instGhost := rfl
+
+theorem ghost_alive {top : Top} {i : Inst} (h : top.inst = some i) (hf : i.freed = false) : top.ghost = instGhost := by
+  unfold Top.ghost; rw [h]; simp [hf]
+
+theorem ghost_dead {top : Top} {i : Inst} (h : top.inst = some i) (hf : i.freed = true) : top.ghost = Ghost.none := by
+  unfold Top.ghost; rw [h]; simp [hf]
+
+theorem ghost_noinst {top : Top} (h : top.inst = none) : top.ghost = Ghost.none := by
+  unfold Top.ghost; rw [h]
+
+/-- `tickit_build` for a terminal: the instance holds the creation references of the terminal and of the root window,
+    the application takes its own. -/
+theorem newtop_ok {tc : TCfg} (top : Top) (lines cols : Int) :
+    ∃ top1 r, xstepCore tc top (.newtop lines cols) = .ok (top1, r) ∧ TopPre top1 := by
+  let ft := freshTop lines cols false true
+  let w0 : Win := { rect := ⟨0, 0, lines, cols⟩, isRoot := true }
+  have hl : LiveW ft.st.tree 0 w0 := ⟨rfl, rfl⟩
+  have inv0 : SInv Ghost.none ft.st := SInv.init lines cols rfl
+  have inv1 : SInv rootGhost (setW ft.st 0 { w0 with refcount := w0.refcount + 1 }) :=
+    inv0.set_refcount hl (w0.refcount + 1) rfl (fun j hj => by simp [rootGhost, hj])
+      (by show (1 : Int) + 1 ≤ ((1 : Nat) : Int) + ((1 : Nat) : Int); decide) (by show (1 : Int) ≤ 1 + 1; decide)
+  have inv2 := termRefS_ok inv1 rfl
+  rw [rootGhost_addTerm] at inv2
+  refine ⟨{ ft with st := termRefS (setW ft.st 0 { w0 with refcount := w0.refcount + 1 }), inst := some {} }, "ok", rfl, ?_⟩
+  refine ⟨?_, (swOk_fresh _ rfl rfl rfl rfl rfl).pre, ⟨?_, ?_⟩, rfl⟩
+  · rw [ghost_alive (i := {}) rfl rfl]
+    exact ⟨inv2, (keepingHandlers_init' lines cols).of_wx rfl, by show ([1, 2, 3] : List Int).Nodup; decide, fun _ _ _ => rfl⟩
+  · intro i hi hf
+    have : i = {} := by cases hi; rfl
+    subst this
+    exact ⟨by decide, by decide⟩
+  · intro i hi hf
+    have : i = {} := by cases hi; rfl
+    subst this
+    cases hf
+
+theorem instHeld_spec {top : Top} (h : instHeld top = true) : ∃ i, top.inst = some i ∧ i.freed = false ∧ 0 < i.appRefs := by
+  unfold instHeld at h
+  cases hi : top.inst with
+  | none => rw [hi] at h; cases h
+  | some i =>
+    rw [hi] at h
+    simp only [Bool.and_eq_true, Bool.not_eq_true', decide_eq_true_eq] at h
+    exact ⟨i, rfl, h.1, h.2⟩
+
+/-- A change of the instance's record that keeps it alive with a right count. -/
+theorem TopInv.pre_setInst {top : Top} (T : TopInv top) {i : Inst} (hi : top.inst = some i) (hf : i.freed = false) (f : Inst → Inst)
+    (hff : (f i).freed = false) (hrc : 1 ≤ (f i).refcount ∧ (f i).refcount = ((f i).appRefs : Int)) : TopPre (setInst top f) := by
+  have hinst : (setInst top f).inst = some (f i) := by unfold setInst; rw [hi]; rfl
+  refine ⟨?_, T.sw.pre.of_same ⟨rfl, rfl, rfl, rfl, rfl⟩, ⟨?_, ?_⟩, T.dangling⟩
+  · rw [ghost_alive hinst hff, ← ghost_alive hi hf]
+    exact T.f.of_fields rfl rfl
+  · intro j hj _
+    rw [hinst] at hj; cases hj
+    exact hrc
+  · intro j hj hfj
+    rw [hinst] at hj; cases hj
+    rw [hff] at hfj; cases hfj
+
+theorem iref_ok {tc : TCfg} {top : Top} (T : TopInv top) :
+    ∃ top1 r, xstepCore tc top .iref = .ok (top1, r) ∧ TopPre top1 := by
+  have e : xstepCore tc top .iref =
+      (if !instHeld top then pure (top, "skip")
+       else pure (setInst top (fun i => { i with appRefs := i.appRefs + 1, refcount := i.refcount + 1 }), "ok")) := rfl
+  rw [e]
+  by_cases hh : instHeld top = true
+  · rw [if_neg (by rw [hh]; simp)]
+    obtain ⟨i, hi, hf, hpos⟩ := instHeld_spec hh
+    have := T.inst.live i hi hf
+    exact ⟨_, _, rfl, T.pre_setInst hi hf _ hf ⟨by show 1 ≤ i.refcount + 1; omega,
+      by show i.refcount + 1 = ((i.appRefs + 1 : Nat) : Int); omega⟩⟩
+  · rw [if_pos (not_true_of hh)]
+    exact ⟨top, "skip", rfl, T.pre⟩
+
+theorem ilater_ok {tc : TCfg} {top : Top} (T : TopInv top) (acts : List TAct) :
+    ∃ top1 r, xstepCore tc top (.ilater acts) = .ok (top1, r) ∧ TopPre top1 := by
+  have e : xstepCore tc top (.ilater acts) =
+      (if !instHeld top then pure (top, "skip")
+       else pure (setInst top (fun i => { i with laters := i.laters ++ [.app i.nW acts], nW := i.nW + 1 }), "ok")) := rfl
+  rw [e]
+  by_cases hh : instHeld top = true
+  · rw [if_neg (by rw [hh]; simp)]
+    obtain ⟨i, hi, hf, hpos⟩ := instHeld_spec hh
+    exact ⟨_, _, rfl, T.pre_setInst hi hf _ hf (T.inst.live i hi hf)⟩
+  · rw [if_pos (not_true_of hh)]
+    exact ⟨top, "skip", rfl, T.pre⟩
+
+theorem itimer_ok {tc : TCfg} {top : Top} (T : TopInv top) (ms : Int) (acts : List TAct) :
+    ∃ top1 r, xstepCore tc top (.itimer ms acts) = .ok (top1, r) ∧ TopPre top1 := by
+  have e : xstepCore tc top (.itimer ms acts) =
+      (if !instHeld top then pure (top, "skip")
+       else
+        let at_ := top.now + ms
+        pure (setInst top (fun i => { i with
+          timers := i.timers.takeWhile (fun e => e.1 ≤ at_) ++ [(at_, .app i.nW acts)] ++ i.timers.dropWhile (fun e => e.1 ≤ at_),
+          nW := i.nW + 1 }), "ok")) := rfl
+  rw [e]
+  by_cases hh : instHeld top = true
+  · rw [if_neg (by rw [hh]; simp)]
+    obtain ⟨i, hi, hf, hpos⟩ := instHeld_spec hh
+    exact ⟨_, _, rfl, T.pre_setInst hi hf _ hf (T.inst.live i hi hf)⟩
+  · rw [if_pos (not_true_of hh)]
+    exact ⟨top, "skip", rfl, T.pre⟩
+
+def isK (k : Nat) : WItem → Bool
+  | .app idx _ => idx = k
+  | .termTimeout => false
+
+def pendingK (top : Top) (k : Nat) : Bool :=
+  match top.inst with
+  | some i => i.laters.any (isK k) || i.timers.any (fun e => isK k e.2)
+  | none => false
+
+theorem icancel_ok {tc : TCfg} {top : Top} (T : TopInv top) (k : Nat) :
+    ∃ top1 r, xstepCore tc top (.icancel k) = .ok (top1, r) ∧ TopPre top1 := by
+  have e : xstepCore tc top (.icancel k) =
+      (if !instHeld top || !pendingK top k then pure (top, "skip")
+       else pure (setInst top (fun i => { i with laters := i.laters.filter (fun x => !isK k x), timers := i.timers.filter (fun e => !isK k e.2) }), "ok")) := rfl
+  rw [e]
+  by_cases hc : (!instHeld top || !pendingK top k) = true
+  · rw [if_pos hc]
+    exact ⟨top, "skip", rfl, T.pre⟩
+  · rw [if_neg hc]
+    have hh : instHeld top = true := by
+      cases h : instHeld top
+      · rw [h] at hc; simp at hc
+      · rfl
+    obtain ⟨i, hi, hf, hpos⟩ := instHeld_spec hh
+    exact ⟨_, _, rfl, T.pre_setInst hi hf _ hf (T.inst.live i hi hf)⟩
+
+/-- The instance's reference to the terminal, without the one to the root window. -/
+theorem none_addTerm_win (i : Nat) : Ghost.none.addTerm.win i = 0 := rfl
+
+theorem rootAlive_iff {st : St} : rootAlive st = true ↔ ∃ r, LiveW st.tree 0 r := by
+  constructor
+  · exact rootAlive_live
+  · rintro ⟨r, hr⟩
+    unfold rootAlive
+    rw [hr.1]
+    simp [hr.2]
+
+/-- The second half of `tickit_destroy`: `tickit_term_teardown`, `tickit_term_unref`, the watches. -/
+def destroyTail (t1 : Top) : Out Top := do
+  let top ← termUnrefI t1
+  pure (setInst { top with inputDead := !top.st.term.freed } (fun i => { i with freed := true, refcount := 0, laters := [], timers := [] }))
+
+theorem instDestroy_eq (tc : TCfg) (top : Top) : instDestroy tc top =
+    (if rootAlive top.st then do
+      let st ← unrefW tc.base top.st 0
+      destroyTail ({ top with st := st, dangling := rootAlive st && !tc.rootForgetsTickit }).sync
+    else destroyTail top) := by
+  unfold instDestroy destroyTail
+  dsimp only
+  split <;> rfl
+
+theorem destroyTail_ok {t0 t1 : Top} {i : Inst} (F1 : FInv Ghost.none.addTerm t1) (R1 : Rest t0 t1) (hsw : SwPre t0)
+    (hi : t0.inst = some i) (ha : i.appRefs = 0) (hd : t0.dangling = false) :
+    ∃ top1, destroyTail t1 = .ok top1 ∧ TopPre top1 ∧ (∃ j, top1.inst = some j ∧ j.freed = true) ∧ SwSame t0 top1 := by
+  unfold destroyTail
+  obtain ⟨t2, h2, F2, R2⟩ := termUnrefI_ok F1
+  simp only [h2, bind_ok, pure_ok]
+  have R12 := R1.trans R2
+  have hi2 : ∃ i2, t2.inst = some i2 ∧ i2.appRefs = 0 := by
+    have := R12.inst
+    rw [hi] at this
+    cases h2i : t2.inst with
+    | none => rw [h2i] at this; exact this.elim
+    | some i2 => rw [h2i] at this; exact ⟨i2, rfl, by rw [this.2.2.1]; exact ha⟩
+  obtain ⟨i2, hi2, ha2⟩ := hi2
+  have hinst : (setInst { t2 with inputDead := !t2.st.term.freed } (fun i => { i with freed := true, refcount := 0, laters := [], timers := [] })).inst =
+      some { i2 with freed := true, refcount := 0, laters := [], timers := [] } := by
+    unfold setInst; show Option.map _ t2.inst = _; rw [hi2]; rfl
+  have hS : SwSame t0 (setInst { t2 with inputDead := !t2.st.term.freed } (fun i => { i with freed := true, refcount := 0, laters := [], timers := [] })) :=
+    ⟨R12.sw, R12.swFirst, R12.swHandler, R12.xterms, R12.fail⟩
+  refine ⟨_, rfl, ⟨?_, hsw.of_same hS, ⟨?_, ?_⟩, ?_⟩, ⟨_, hinst, rfl⟩, hS⟩
+  · rw [ghost_dead hinst rfl]
+    exact F2.of_fields rfl rfl
+  · intro j hj hf
+    rw [hinst] at hj; cases hj; cases hf
+  · intro j hj _
+    rw [hinst] at hj; cases hj
+    exact ⟨rfl, rfl, ha2⟩
+  · show t2.dangling = false
+    rw [R12.dangling]; exact hd
+
+/-- `tickit_destroy`: the root window and the terminal are released, the watches are freed. -/
+theorem instDestroy_ok {tc : TCfg} (R : Repaired tc.base) (hrf : tc.rootForgetsTickit = true) {top : Top} {i : Inst}
+    (F : FInv instGhost top) (hsw : SwPre top) (hi : top.inst = some i) (ha : i.appRefs = 0) (hd : top.dangling = false) :
+    ∃ top1, instDestroy tc top = .ok top1 ∧ TopPre top1 ∧ (∃ j, top1.inst = some j ∧ j.freed = true) ∧
+      SwSame top top1 := by
+  rw [instDestroy_eq]
+  by_cases hr : rootAlive top.st = true
+  · rw [if_pos hr]
+    obtain ⟨r, hrl⟩ := rootAlive_live hr
+    obtain ⟨st1, hu, inv1, _, _, _⟩ := unrefW_ghost R (gh' := Ghost.none.addTerm) F.inv hrl rfl rfl
+      (fun j hj => by simp [instGhost, hj])
+    simp only [hu, bind_ok]
+    obtain ⟨F1, R1, _⟩ := sync_ok (top := { top with st := st1, dangling := rootAlive st1 && !tc.rootForgetsTickit }) inv1
+      (unrefW_keeps F.keep hu) F.ids
+    have Rx : Rest top ({ top with st := st1, dangling := rootAlive st1 && !tc.rootForgetsTickit } : Top) :=
+      ⟨InstRel.refl _, by show (rootAlive st1 && !tc.rootForgetsTickit) = top.dangling; rw [hrf, hd]; simp,
+       rfl, rfl, rfl, rfl, rfl, rfl, rfl, rfl, rfl, rfl, fun _ h => h⟩
+    exact destroyTail_ok F1 (Rx.trans R1) hsw hi ha hd
+  · rw [if_neg hr]
+    refine destroyTail_ok ⟨F.inv.reghost_win rfl ?_, F.keep, F.ids, F.root⟩ (Rest.refl top) hsw hi ha hd
+    intro j w hl
+    have : j ≠ 0 := by
+      intro e; subst e
+      exact hr (rootAlive_iff.2 ⟨w, hl⟩)
+    simp [instGhost, this]
+
+theorem instUnref_ok {tc : TCfg} (R : Repaired tc.base) (hrf : tc.rootForgetsTickit = true) {top : Top} (T : TopInv top)
+    (hh : instHeld top = true) : ∃ top1, instUnref tc top = .ok top1 ∧ TopPre top1 ∧ SwSame top top1 ∧
+      (∀ i j, top.inst = some i → top1.inst = some j → j.appRefs + 1 = i.appRefs ∧ (i.appRefs = 1 → j.freed = true)) := by
+  obtain ⟨i, hi, hf, hpos⟩ := instHeld_spec hh
+  obtain ⟨hr1, hrc⟩ := T.inst.live i hi hf
+  unfold instUnref
+  rw [hi]
+  simp only
+  have hinst : (setInst top (fun i => { i with appRefs := i.appRefs - 1, refcount := i.refcount - 1 })).inst =
+      some { i with appRefs := i.appRefs - 1, refcount := i.refcount - 1 } := by unfold setInst; rw [hi]; rfl
+  by_cases hz : i.refcount - 1 = 0
+  · rw [if_pos hz]
+    have F : FInv instGhost (setInst top (fun i => { i with appRefs := i.appRefs - 1, refcount := i.refcount - 1 })) := by
+      rw [← ghost_alive hi hf]; exact T.f.of_fields rfl rfl
+    obtain ⟨top1, h1, P1, ⟨j, hj, hjf⟩, S1⟩ := instDestroy_ok R hrf F (T.sw.pre.of_same ⟨rfl, rfl, rfl, rfl, rfl⟩) hinst
+      (by show i.appRefs - 1 = 0; omega) T.dangling
+    refine ⟨top1, h1, P1, ⟨S1.sw, S1.first, S1.handler, S1.xterms, S1.fail⟩, ?_⟩
+    intro i' j' hi' hj'
+    cases hi'
+    rw [hj] at hj'; cases hj'
+    have := P1.inst.dead j hj hjf
+    exact ⟨by omega, fun _ => hjf⟩
+  · rw [if_neg hz]
+    refine ⟨_, rfl, T.pre_setInst hi hf _ hf ⟨by show 1 ≤ i.refcount - 1; omega,
+      by show i.refcount - 1 = ((i.appRefs - 1 : Nat) : Int); omega⟩, ⟨rfl, rfl, rfl, rfl, rfl⟩, ?_⟩
+    intro i' j' hi' hj'
+    cases hi'
+    rw [hinst] at hj'; cases hj'
+    exact ⟨by show i.appRefs - 1 + 1 = i.appRefs; omega, fun h1 => by omega⟩
+
+theorem iunref_ok {tc : TCfg} (R : Repaired tc.base) (hrf : tc.rootForgetsTickit = true) {top : Top} (T : TopInv top) :
+    ∃ top1 r, xstepCore tc top .iunref = .ok (top1, r) ∧ TopPre top1 := by
+  have e : xstepCore tc top .iunref = (if !instHeld top then pure (top, "skip") else okT (instUnref tc top)) := rfl
+  rw [e]
+  by_cases hh : instHeld top = true
+  · rw [if_neg (by rw [hh]; simp)]
+    obtain ⟨top1, h1, P1, _⟩ := instUnref_ok R hrf T hh
+    exact ⟨top1, "ok", okT_ok h1, P1⟩
+  · rw [if_pos (not_true_of hh)]
+    exact ⟨top, "skip", rfl, T.pre⟩
+
 end Tickit.Life
